@@ -177,7 +177,8 @@ end
 → `<decoded> <result> <value> <payloadset> <callback>`
   decoded `-` | `<c>:v<k>` | `!assert` | `!other`     (set_decoded_data)
   result  `T` | `F` | `!declared` | `!other`           (RemoteValue.process on the resulting telegram)
-`eager table <entries>`  entries `ga:dpt,…` with `x` for an unparsable address / unknown DPT; → final `ga:dpt` pairs sorted by first insertion
+`eager table <n> <entries>`  entries `ga:dpt,…` in mapping order with `x` for an unparsable address / unknown DPT (`-` = empty mapping);
+  → `GroupAddressDPT.get` of the addresses `0..n-1` (`-` = none), joined by `,`
 -/
 
 def parseDRes (s : String) : Option (DRes Nat) :=
@@ -231,16 +232,16 @@ def handle : List String → String
           | .ok (st', o) =>
             s!"{dec} {if o.result then "T" else "F"} {showVal st'.value} {if st'.payload.isSome then "1" else "0"} {showVal o.callback}"
     | _, _, _, _, _ => "bad-op"
-  | ["table", entries] =>
+  | ["table", n, entries] =>
     let parseE (s : String) : Option (Option Nat × Option Nat) :=
       match s.splitOn ":" with
       | [a, b] => some (a.toNat?, b.toNat?)
       | _ => none
-    match (entries.splitOn ",").mapM parseE with
-    | none => "bad-op"
-    | some es =>
+    match n.toNat?, (if entries == "-" then some [] else (entries.splitOn ",").mapM parseE) with
+    | some n, some es =>
       let tbl : Table Nat Nat := Table.setAll [] es
-      if tbl.isEmpty then "-" else ",".intercalate (tbl.map fun (g, c) => s!"{g}:{c}")
+      ",".intercalate ((List.range n).map fun ga => match tbl.get ga with | some c => toString c | none => "-")
+    | _, _ => "bad-op"
   | _ => "bad-op"
 
 end XknxVerif.EagerDecode
